@@ -711,7 +711,21 @@ def corpus_cases() -> list:
     return out
 
 
+def refused_restore(ctx: Ctx) -> None:
+    """an explored network (with its attempt history) on which a restore from an incomplete checkpoint is refused: the
+    history must go on naming the same minima, i.e. the object is what it was (the refusal itself is fine)"""
+    from props import c06
+    for i in range(ctx.scale(6, 30)):
+        why, _k, _spec, rep = c06.failed_read_case(ctx.rng, missing=c06.TABLE_FILES[i % 5] if i < 5 else None, into_fresh=False)
+        ctx.stats.case({"stream": "predicate-refused-restore", "missing": rep["failed_read"]["missing"]}, True)
+        if why:
+            ctx.fail("history:after-refused-restore", "the recorded pairs no longer name the minima they were recorded for: "
+                     + why, rep)
+            return
+
+
 def predicates(ctx: Ctx) -> None:
+    refused_restore(ctx)
     for name, fail in corpus_cases():
         ctx.stats.case({"stream": "predicate-corpus", "name": name}, True)
         if fail:
@@ -730,6 +744,9 @@ def predicates(ctx: Ctx) -> None:
 
 def replay(ctx: Ctx, data: dict) -> bool:
     ok = True
+    if "failed_read" in data:
+        from props import c06
+        return c06.replay(ctx, data)
     if "case" in data:
         for name, fail in corpus_cases():
             if fail and fail[2].get("case") == data["case"]:
